@@ -19,6 +19,8 @@ def _node():
         off = Parameter('falsy constant', FloatRange(), constant=0.0, default=3.0)
         hidden = Parameter('not exported', FloatRange(), default=0, readonly=False, export=False)
         ro = Parameter('readonly custom', FloatRange(), default=2)
+        ex = Parameter('custom, export=True given again in the configuration', FloatRange(), default=2, readonly=False)
+        late = Parameter('custom, unexported in the class, exported by the configuration', FloatRange(), default=2, readonly=False, export=False)
 
         def read_value(self):
             return self.target
@@ -38,12 +40,12 @@ def _node():
     class Quiet(Readable):
         """a module that is not exported at all"""
     from frappy.config import Param
-    return nodelib.Srv([nodelib.mod('m', Dev, ro=Param(export='renamed'), text=Param(export='_text')), nodelib.mod('n', Readable),
+    return nodelib.Srv([nodelib.mod('m', Dev, ro=Param(export='renamed'), text=Param(export='_text'), ex=Param(export=True), late=Param(export=True)), nodelib.mod('n', Readable),
                         nodelib.mod('q', Quiet, export=False)])
 
 
 NAMES = ['renamed', 'value', 'target', 'text', '_text', 'fixed', '_fixed', '_zero', '_blank', '_off', 'zero', 'hidden', '_hidden', 'ro', '_ro', 'twice', '_twice', 'secret', '_secret',
-         'stop', 'status', 'pollinterval', 'nosuch', '', 'accessibles', 'name', 'True', '_value']
+         'ex', '_ex', 'late', '_late', 'stop', 'status', 'pollinterval', 'nosuch', '', 'accessibles', 'name', 'True', '_value']
 MODS = ['m', 'n', 'q', 'x', '']
 
 
